@@ -174,6 +174,31 @@ func Corpus(id int, withRestart bool) []*Case {
 		s.vote(1, 4, 8)
 		s.vote(2, 4, 8)
 		add(s)
+
+		// the regressed finalized pointer together with a link whose source is no ancestor of its target: a4 is
+		// finalized by messages, the node is reopened (root = genesis again, branch C back in the tree), blocks of
+		// branch C carry the links a8 -> c12 and c12 -> c16: c12 becomes finalized next to a4
+		s = newScen(id, "corpus-conflict-after-restart", 4, Outsider)
+		a = s.chain(0, 11)   // 1..11: a4 = 4, a8 = 8
+		cc := s.chain(0, 11) // 12..22: c4 = 15, c8 = 19
+		c12 := s.blk(22, valid(8, 23, 0, 1, 2))
+		c15 := s.chain(c12, 3)
+		c16 := s.blk(c15[2], valid(c12, 27, 0, 1, 2))
+		c17 := s.blk(c16)
+		s.deliver(a...)
+		s.deliver(cc[:9]...)
+		s.vote(0, 0, 4)
+		s.vote(1, 0, 4)
+		s.vote(2, 0, 4)
+		s.vote(0, 4, 8)
+		s.vote(1, 4, 8)
+		s.vote(2, 4, 8)
+		s.restart()
+		s.deliver(cc[9:]...)
+		s.deliver(c12)
+		s.deliver(c15...)
+		s.deliver(c16, c17)
+		add(s)
 	}
 	return r
 }
